@@ -1,5 +1,6 @@
 """C17/C03/C05 on malformed input: render the token sequences enumerated by spec/Hostile.tla as files, run both
 modes, watch for abnormal termination, and apply the universal monitors (pure insertion, report = insertion)."""
+import multiprocessing
 import os
 import shutil
 
@@ -85,10 +86,15 @@ def _bisect(binary, structured, files, check, timeout, limit=2):
     return culprits
 
 
+SKIP_REST = multiprocessing.Value("i", 0)      # set by the parent when enough batches have terminated abnormally
+
+
 def run_batch(job):
     """job = (binary, structured, {name: bytes}, with_bad_file)"""
     binary, structured, files, with_bad = job
     out = Outcome()
+    if SKIP_REST.value:
+        return out
     out.files = len(files)
     timeout = 120 + len(files) // 20
     P = bl.Project(structured=structured, tag="ho")
